@@ -19,6 +19,7 @@ import (
 	"time"
 
 	"github.com/RoaringBitmap/roaring/v2"
+	"github.com/RoaringBitmap/roaring/v2/roaring64"
 )
 
 type gateEv struct {
@@ -77,7 +78,7 @@ func setRecorder(r *gateRec) {
 	recCur = r
 	if !recSet {
 		recSet = true
-		roaring.VerifGate = func(site string, id int) {
+		hook := func(site string, id int) {
 			recMu.Lock()
 			c := recCur
 			recMu.Unlock()
@@ -85,6 +86,8 @@ func setRecorder(r *gateRec) {
 				c.gate(site, id)
 			}
 		}
+		roaring.VerifGate = hook
+		roaring64.VerifGate = hook
 	}
 	recMu.Unlock()
 }
@@ -97,6 +100,7 @@ type parConfig struct {
 	NW       int
 	LK, HK   int      // ParOr: keys lk..hk (all present)
 	Items    []string // Heap: per key, "multi" (present in >= 2 inputs) or "single"
+	Bits     int      // 64: roaring64.ParOr (keys are the high 32 bits)
 }
 
 var parConfigs = []parConfig{
@@ -104,6 +108,8 @@ var parConfigs = []parConfig{
 	{Name: "paror_w2_k5", Pipeline: "ParOr", Fn: "ParOr", NW: 2, LK: 3, HK: 7},
 	{Name: "paror_w3_k4", Pipeline: "ParOr", Fn: "ParOr", NW: 3, LK: 1, HK: 4},
 	{Name: "paror_w1_k9", Pipeline: "ParOr", Fn: "ParOr", NW: 1, LK: 0, HK: 8},
+	{Name: "paror64_w2_k4", Pipeline: "ParOr", Fn: "ParOr", NW: 2, LK: 2, HK: 5, Bits: 64},
+	{Name: "paror64_w1_k6", Pipeline: "ParOr", Fn: "ParOr", NW: 1, LK: 0, HK: 5, Bits: 64},
 	{Name: "heapor_w2_i3", Pipeline: "Heap", Fn: "ParHeapOr", NW: 2, Items: []string{"multi", "single", "multi"}},
 	{Name: "heapor_w1_i5", Pipeline: "Heap", Fn: "ParHeapOr", NW: 1, Items: []string{"single", "single", "multi", "single", "multi"}},
 	{Name: "heapor_w3_i4", Pipeline: "Heap", Fn: "ParHeapOr", NW: 3, Items: []string{"multi", "multi", "multi", "multi"}},
@@ -169,6 +175,46 @@ func parCall(cfg *parConfig, bms []*roaring.Bitmap) *roaring.Bitmap {
 	return roaring.ParAnd(cfg.NW, bms...)
 }
 
+// parPrepare builds the inputs of one call and returns the call itself: it reports "returned" when the result
+// equals the sequential fold of the inputs, "wrong-result" otherwise (a panic is the caller's business).
+func parPrepare(cfg *parConfig, r *rand.Rand) func() string {
+	if cfg.Bits == 64 {
+		a, b, c := roaring64.New(), roaring64.New(), roaring64.New()
+		for k := cfg.LK; k <= cfg.HK; k++ {
+			v := uint64(k)<<32 + uint64(r.Intn(1<<20))
+			switch (k - cfg.LK) % 3 {
+			case 0:
+				a.Add(v)
+				b.Add(v + 1)
+			case 1:
+				b.Add(v)
+			default:
+				c.Add(v)
+				a.Add(v)
+			}
+		}
+		a.Add(uint64(cfg.LK) << 32)
+		b.Add(uint64(cfg.HK)<<32 + 7)
+		want := a.Clone()
+		want.Or(b)
+		want.Or(c)
+		return func() string {
+			if res := roaring64.ParOr(cfg.NW, a, b, c); !res.Equals(want) {
+				return "wrong-result"
+			}
+			return "returned"
+		}
+	}
+	bms := parInputs(cfg, r)
+	want := parExpected(cfg, bms)
+	return func() string {
+		if res := parCall(cfg, bms); !res.Equals(want) {
+			return "wrong-result"
+		}
+		return "returned"
+	}
+}
+
 // parExpected: the sequential fold the parallel call must equal
 func parExpected(cfg *parConfig, bms []*roaring.Bitmap) *roaring.Bitmap {
 	res := bms[0].Clone()
@@ -219,30 +265,22 @@ func cmdParGate(args []string) {
 			continue
 		}
 		r := rand.New(rand.NewSource(*seed*2750159 + int64(id)))
-		bms := parInputs(cfg, r)
-		want := parExpected(cfg, bms)
+		call := parPrepare(cfg, r)
 		rec := &gateRec{r: rand.New(rand.NewSource(r.Int63())), jitter: r.Intn(3)}
 		setRecorder(rec)
-		mainG := curGID()
-		done := make(chan *roaring.Bitmap, 1)
+		done := make(chan string, 1)
 		go func() { // the call runs in its own goroutine so that a hang can be reported
 			defer func() {
 				if p := recover(); p != nil {
-					done <- nil
+					done <- "panic"
 				}
 			}()
-			done <- parCall(cfg, bms)
+			done <- call()
 		}()
-		outcome := "returned"
+		outcome := "hang"
 		select {
-		case res := <-done:
-			if res == nil {
-				outcome = "panic"
-			} else if !res.Equals(want) {
-				outcome = "wrong-result"
-			}
+		case outcome = <-done:
 		case <-time.After(20 * time.Second):
-			outcome = "hang"
 		}
 		// wait until every goroutine of the call has passed its exit gate (so that no late event lands in the next run)
 		wantExits := cfg.NW
@@ -264,7 +302,6 @@ func cmdParGate(args []string) {
 			time.Sleep(100 * time.Microsecond)
 		}
 		setRecorder(nil)
-		_ = mainG
 		rec.mu.Lock()
 		evs := append([]gateEv(nil), rec.evs...)
 		rec.mu.Unlock()
